@@ -1,5 +1,6 @@
 mod api;
 mod h_core;
+mod h_more;
 mod instances;
 mod prop;
 mod runner;
